@@ -58,7 +58,9 @@ def run(tier, seed):
         quick_num=14 if len(THEMES) > 1 else 30, thorough_num=250,
         assumptions=kc.COMMON_ASSUMPTIONS, rule=RULE, needed_events=NEEDED,
         mc_cfgs=(['MC_Krill_q_chain.cfg', 'MC_Krill_q_life.cfg', 'MC_Krill_q_multi.cfg'] if tier == "quick" else ['MC_Krill_q_chain.cfg', 'MC_Krill_q_life.cfg', 'MC_Krill_q_multi.cfg', 'MC_Krill_chain.cfg', 'MC_Krill_life.cfg']),
-        directed=DIRECTED + kc.MULTI_DIRECTED[:1],
+        directed=(DIRECTED + kc.MULTI_DIRECTED[:1]
+                  + kc.clause("chain-shrink-after-suspension",
+                              "shrink-to-nothing")),
         theme_nums={"multi": (6, 80), "mix": (4, 60)})
 
 
